@@ -87,6 +87,8 @@ type Run struct {
 	viol        map[string]*Violation
 	violOrder   []string
 	violTotal   int64
+	violFull    sync.Map
+	violMore    atomic.Int64
 	phases      []PhaseInfo
 	curPhase    string
 	Assumptions []string
@@ -213,6 +215,7 @@ func (r *Run) record(v *Violation) {
 		}
 	}
 	if n >= 40 {
+		r.violFull.Store(v.Probe+"\x00"+v.Kind, true)
 		return
 	}
 	v.Property = r.ID
@@ -266,6 +269,10 @@ func (p *Probe[A]) Do(w *W, a A) bool {
 		return true
 	}
 	if w.dry {
+		return false
+	}
+	if _, full := p.r.violFull.Load(p.name + "\x00" + kind); full {
+		p.r.violMore.Add(1)
 		return false
 	}
 	arg, err := json.Marshal(a)
@@ -409,6 +416,7 @@ func (r *Run) doReplay(path string) int {
 
 func (r *Run) finish() int {
 	wall := time.Since(r.start).Seconds()
+	r.violTotal += r.violMore.Load()
 	// classify violations: reproduce 5x through the plain replay path first
 	var unknown []*Violation
 	knownHit := map[string]int{}
@@ -438,6 +446,12 @@ func (r *Run) finish() int {
 		}
 		unknown = append(unknown, v)
 	}
+	sort.SliceStable(unknown, func(i, j int) bool { // simplest counterexample first
+		if len(unknown[i].Arg) != len(unknown[j].Arg) {
+			return len(unknown[i].Arg) < len(unknown[j].Arg)
+		}
+		return string(unknown[i].Arg) < string(unknown[j].Arg)
+	})
 	exhaustive := true
 	var caps []string
 	for _, p := range r.phases {
